@@ -273,6 +273,25 @@ int verif_snprintf(char *dst, size_t cap, const char *fmt, ...)
 	return (int) k.n;
 }
 
+/* vsnprintf / vsprintf into a caller buffer (C99: at most cap-1 bytes and a terminator are stored, the FULL formatted
+ * length is returned).  Every byte of the destination up to min(cap, VAS_MAX) is written - formatted bytes first, then
+ * concrete NULs - so that string loops over the destination stop at a concrete bound (a loop the harness plan has never
+ * seen has no unwindset entry). */
+static char vsn_tmp[VAS_MAX];
+int verif_vsnprintf(char *dst, size_t cap, const char *fmt, va_list ap)
+{
+	OutSink k; unsigned i, m;
+	for (i = 0; i < VAS_MAX; ++i) vsn_tmp[i] = '\0';
+	k.buf = vsn_tmp; k.n = 0; k.cap = VAS_MAX;
+	(void) out_vformat(&k, fmt, ap);
+	if (cap > 0) {
+		m = k.n < cap - 1 ? k.n : (unsigned) (cap - 1);
+		for (i = 0; i < VAS_MAX; ++i) if (i < cap) dst[i] = (i < m && i + 1 < VAS_MAX && i + 1 < cap) ? vsn_tmp[i] : '\0';   /* last byte: a concrete NUL */
+	}
+	return (int) k.n;
+}
+int verif_vsprintf(char *dst, const char *fmt, va_list ap) { return verif_vsnprintf(dst, VAS_MAX, fmt, ap); }
+
 static char vas_buf[VAS_MAX];
 static unsigned vas_live, vas_calls;
 SEQ_DECL(u8, vasfail);
